@@ -242,6 +242,12 @@ inline Session genSession(Choices& c, const std::vector<Option>& opts, const Gen
         if (cmd.kind == "go") { st.searching = true; st.pondering = cmd.goPonder || cmd.goInfinite; }
         if (cmd.kind == "stop") { st.searching = false; st.pondering = false; }
         s.cmds.push_back(cmd);
+        // options are applied by the engine thread (which may print, e.g. the tablebase count after a path option) while
+        // the protocol thread goes on: follow such an option directly with the command that prints most
+        if (cmd.kind == "setoption" && cmd.text.find("Path value") != std::string::npos && c.chance(1, 2)) {
+            Cmd u; u.kind = "uci"; u.text = "uci"; u.pace = P_NOW; u.paceArg = 0;
+            s.cmds.push_back(u);
+        }
     }
     if (!ended) {
         Cmd cmd;
